@@ -1008,6 +1008,7 @@ class FactsAnalysis:
         # sink legitimately sits *after* the state update that the guard authorised)
         self.kill_fields = kill_fields
         self.lit_places = {}
+        self.lit_expr = {}  # comparison literal -> (op, lhs expr, rhs expr) as printed (operands may be swapped for eq/ne)
         self.edge_lits = {}
         self._compute_edge_lits()
         self._solve()
@@ -1044,6 +1045,7 @@ class FactsAnalysis:
                 sa, sb = sb, sa
             l = "%s(%s,%s)" % (op.lower(), sa, sb)
             self.lit_places[l] = places_of(a) | places_of(b)
+            self.lit_expr[l] = (op.lower(), a, b)
             return [l]
         if k == "call":
             name = e[1]
